@@ -53,8 +53,13 @@ def cases(tier, seed):
                     k += 1
     # the overlapping-error templates of C17 (a rejoin timer firing while a join is in progress) under this monitor
     from . import c17
-    tm = [c for c in c17.cases(tier, seed) if c.get("dense")]
+    allc = c17.cases(tier, seed)
+    tm = [c for c in allc if c.get("dense")]
     for c in tm[:{"quick": 60, "thorough": 1500}[tier]]:
+        out.append(dict(seed=c["seed"], profile="c17", c17=c))
+    # faults on the metadata loads of the join path (the second one is the leader's partition lookup)
+    md = [c for c in allc if len(c["word"]) == 1 and c["word"][0][0] == "Metadata"]
+    for c in md[:{"quick": 40, "thorough": 400}[tier]]:
         out.append(dict(seed=c["seed"], profile="c17", c17=c))
     return out
 
@@ -344,6 +349,11 @@ class Mon(object):
         res = self.res
         b = ev["r"]["body"]
         if not b["assignments"]:
+            if s.get("leader_of") == b["generation"] and any(tr.cluster.topic_partitions.get(t) for t in m.spec["topics"]):
+                res.hit("leader_assignments_checked")
+                res.violate("assignment/leader-assigned-nothing", "the member was told it leads generation %d but its "
+                            "SyncGroup carries no assignment at all: every partition of the subscribed topics is left "
+                            "to nobody" % b["generation"], member=m.name)
             return
         if s.get("grew_since_join"):
             res.hit("assignment_not_judged_partitions_changed_meanwhile")
@@ -418,6 +428,9 @@ class Mon(object):
             return
         if api not in ("JoinGroup", "SyncGroup", "Heartbeat"):
             return
+        if api == "JoinGroup" and ev["ok"] and err == 0 and r["done"]["srv"] is not None:
+            jr = r["done"]["srv"]["result"]
+            s["leader_of"] = jr["generation"] if jr.get("leader") == jr.get("member") else None
         evicting = (ev["ok"] is False and ev["failure"] == "RequestTimedOutError") or err in (22, 25)
         if evicting and s["told"] is not None and s["evicted"] is None and not s["joining"]:
             s["evicted"] = dict(step=ev["step"], t=ev["t"], why="%s answered %s" % (
